@@ -98,6 +98,12 @@ fn matches_any(k: &str, set: &[&str]) -> bool {
     set.iter().any(|p| k.starts_with(p))
 }
 
+/// operators of several characters that the grammar takes as one terminal
+const OPERATOR_TOKENS: &[&str] = &[
+    "&&&", "&&", "||", "**", "==", "!=", "===", "!==", "==?", "!=?", ">=", "<<", ">>", "<<<", ">>>", "->", "<->", "+=", "-=", "*=", "/=", "%=", "&=", "|=",
+    "^=", "<<=", ">>=", "<<<=", ">>>=", "++", "--", "~&", "~|", "~^", "^~", "|->", "|=>", "::", ":=", ":/", "->>", "#-#", "#=#",
+];
+
 /// Oracles (2) and (3) of DESIGN.md C02 on an accepted tree.
 pub fn check_classification(p: &Program, tree: &sv::SyntaxTree, text: &str) -> Result<(usize, usize), (String, serde_json::Value)> {
     let offs = locate_tokens(p, text).map_err(|e| (e, json!({})))?;
@@ -148,6 +154,12 @@ pub fn check_classification(p: &Program, tree: &sv::SyntaxTree, text: &str) -> R
                                 }
                             } else if l.len == tok.text.len() {
                                 seen_tok[ti] = true;
+                            } else if tok.class == Class::Symbol && OPERATOR_TOKENS.contains(&tok.text.as_str()) {
+                                // an operator of several characters is one token of the language, hence one leaf
+                                return Err((
+                                    format!("operator token {:?} at {} starts a leaf of length {}", tok.text, l.offset, l.len),
+                                    json!({"token": tok.text, "offset": l.offset, "leaf_len": l.len}),
+                                ));
                             }
                             if let Some(es) = expects_by_tok.get(&ti) {
                                 for &ei in es {
